@@ -13,6 +13,15 @@ def main():
 	pid = sys.argv[1]
 	req = json.loads(sys.stdin.read())
 	mod = importlib.import_module(f'specs.{pid}_oracle')
+	_rc = mod.run_case
+
+	def safe_run_case(case):
+		# an exception the executable spec does not predict is a failure of that case, not of the harness
+		try:
+			return _rc(case)
+		except Exception as e:
+			return {'ok': False, 'expected': 'no unexpected exception', 'actual': 'raised ' + ''.join(traceback.format_exception_only(type(e), e)).strip()[:500]}
+	mod.run_case = safe_run_case
 	try:
 		if req['op'] == 'case':
 			res = mod.run_case(req['case'])
